@@ -303,7 +303,12 @@ func (x *VC) autoPure(pkg *types.Package, full string, sig *types.Signature, st 
 	x.externs["assumed-pure: "+p+" (logging)"] = true
 	var res []*Val
 	for i := 0; i < sig.Results().Len(); i++ {
-		res = append(res, x.freshOrNamed(sig.Results().At(i).Type(), "log", reach, st))
+		r := x.freshOrNamed(sig.Results().At(i).Type(), "log", reach, st)
+		if returnsOnlyLogger(sig) && r.K == KScalar && x.noName == 0 {
+			x.assume("true", sNot(sEq(r.T, "0"))) // loggers are never nil (listed assumption)
+			x.externs["assumed: logger getters return a non-nil logger"] = true
+		}
+		res = append(res, r)
 	}
 	return res, true
 }
